@@ -470,6 +470,21 @@ class Env:
                 return R(Fr(float(v))) if self.impl == 'model' else float(v)
         raise KeyError(name)
 
+    def fresh_lib(self):
+        """a library instance with pristine module-level state (no caches warmed, default gv): the model re-executes the current
+        source, the real side re-imports the opticomlib modules."""
+        if self.impl == 'model':
+            from .loader import Library
+            return Library(REPO)
+        return RealLib()
+
+    def np_of(self, lib):
+        """numpy as seen by that library instance (the model's numpy, or the real one)."""
+        if self.impl == 'model':
+            return lib.np()
+        import numpy
+        return numpy
+
     def mark(self):
         """position in the definedness log (model) / warning log (real), for check_defined."""
         if self.impl == 'model':
